@@ -93,10 +93,13 @@ func mkPorts(caseSeed int64) caseJ {
 		c.Class = "many"
 		rs, _ = tgt.RandRanges(r, 201+r.Intn(250), 1500)
 	case 3:
-		c.Class = "full"
-		rs = []*scan.PortRange{{StartPort: 0, EndPort: 65535}}
+		// wide ranges at both ends of the port space (the model's walk is quadratic in Coq's VM: the whole
+		// range 0-65535 is left to the theorem and to the iterator's own check)
+		c.Class = "wide"
+		w := uint16(1024 + r.Intn(3072))
+		rs = []*scan.PortRange{{StartPort: 0, EndPort: w}, {StartPort: 65535 - w, EndPort: 65535}}
 		if r.Bool() {
-			rs = []*scan.PortRange{{StartPort: 1, EndPort: 65535}}
+			rs = []*scan.PortRange{{StartPort: 65535 - w, EndPort: 65535}, {StartPort: 65535, EndPort: 65535}, {StartPort: 0, EndPort: 0}}
 		}
 	default:
 		rs, _ = tgt.RandRanges(r, 1+r.Intn(12), 600)
